@@ -195,9 +195,9 @@ HARNESSES = {
 
 def bound(tier):
   if tier == 'quick':
-    return ('threads: 9 harnesses (2-3 threads), all schedules with <=1 preemption at shared-state granularity plus <=3 (2 threads) / '
+    return ('threads: 9 harnesses (2-3 threads; the wide nested-constructor harness H10 runs in the thorough tier only), all schedules with <=1 preemption at shared-state granularity plus <=3 (2 threads) / '
             '<=2 (3 threads) preemptions at points inside the code that touches the store concerned; sequential depth 4')
-  return ('threads: 9 harnesses, all schedules with <=2 preemptions at shared-state granularity and <=1 at '
+  return ('threads: 10 harnesses, all schedules with <=2 preemptions at shared-state granularity and <=1 at '
           'all-gin-lines granularity; sequential depth 6')
 
 
